@@ -28,7 +28,7 @@ impl Prop for C04 {
         "C04"
     }
     fn cases(&self, tier: Tier) -> u64 {
-        tier.pick(1_000_000, 4_000_000)
+        tier.pick(1_000_000, 24_000_000)
     }
     fn strategy(&self, _tier: Tier) -> BoxedStrategy<Case> {
         // extra mass where the Sun passes (near) the zenith: lat = declination(date) + u, constructed from the oracle
